@@ -89,8 +89,32 @@ pub fn cmd_stats(seed: u64, n: usize, opts: &[String]) {
     let mut asm_sizes: Vec<usize> = Vec::new();
     let mut distinct: HashSet<String> = HashSet::new();
     let mut arities = [0usize; 8];
+    let mut steps: Vec<usize> = Vec::new();
+    let mut eval_classes: BTreeMap<String, usize> = BTreeMap::new();
+    let mut eval_bad: Vec<(usize, String, String)> = Vec::new();
+    let max_steps: usize = opts.iter().find_map(|o| o.strip_prefix("max_steps=").and_then(|v| v.parse().ok())).unwrap_or(2_000_000);
+    let mut arg_rng = Rng::new(seed ^ 0xA5A5);
     for k in 0..n {
         let p = gen_k(seed, k, opts);
+        // the generator's own machine: termination, step counts, unsafe division
+        {
+            use crate::gen_fun_eval::{run, Outcome};
+            let a = p.main_arity;
+            let mut tuples: Vec<Vec<i64>> = vec![vec![0; a], (1..=a as i64).collect(), vec![-3; a], vec![100; a]];
+            tuples.push((0..a).map(|_| arg_rng.i64_interesting()).collect());
+            tuples.push((0..a).map(|_| (arg_rng.below(21) as i64) - 10).collect());
+            if a == 0 { tuples.truncate(1); }
+            let mut worst = 0;
+            for t in &tuples {
+                match run(&p.ast, t, max_steps) {
+                    Outcome::Done { steps: st, .. } => { worst = worst.max(st); *eval_classes.entry("done".into()).or_insert(0) += 1; }
+                    Outcome::Timeout => { *eval_classes.entry("TIMEOUT".into()).or_insert(0) += 1; eval_bad.push((k, format!("timeout on {t:?}"), p.text.clone())); }
+                    Outcome::Trap(m) => { *eval_classes.entry(format!("TRAP {m}")).or_insert(0) += 1; eval_bad.push((k, format!("trap {m} on {t:?}"), p.text.clone())); }
+                    Outcome::Stuck(m) => { *eval_classes.entry(format!("STUCK {m}")).or_insert(0) += 1; eval_bad.push((k, format!("stuck {m} on {t:?}"), p.text.clone())); }
+                }
+            }
+            steps.push(worst);
+        }
         distinct.insert(p.text.clone());
         for f in &p.features { *feat.entry(f).or_insert(0) += 1; }
         arities[p.main_arity.min(7)] += 1;
@@ -165,6 +189,9 @@ pub fn cmd_stats(seed: u64, n: usize, opts: &[String]) {
     dist("size (term nodes in parsed AST)", &mut sizes);
     dist("size (source lines)", &mut lines);
     dist("size (x86-64 assembly bytes)", &mut asm_sizes);
+    dist("machine steps (worst of 6 argument tuples)", &mut steps);
+    println!("programs above 5000 steps: {}   above 100000: {}", steps.iter().filter(|s| **s > 5000).count(), steps.iter().filter(|s| **s > 100000).count());
+    println!("machine outcomes: {eval_classes:?}");
     println!("main arity histogram 0..: {:?}", &arities[..6]);
     println!("--- rejection classes");
     for (c, k) in &reject_classes { println!("{k:6}  {c}"); }
@@ -174,7 +201,7 @@ pub fn cmd_stats(seed: u64, n: usize, opts: &[String]) {
     for (f, c) in &ast_progs { println!("{:24} {:6} ({:5.1}%) {:8}", f, c, pct(*c, parse_ok), ast_nodes[f]); }
     println!("--- generator feature log: programs containing");
     for (f, c) in &feat { println!("{:44} {:6} ({:5.1}%)", f, c, pct(*c, n)); }
-    for (title, list) in [("rejected", &rejected), ("panics / pipeline findings", &panics)] {
+    for (title, list) in [("rejected", &rejected), ("panics / pipeline findings", &panics), ("machine timeouts/traps", &eval_bad)] {
         println!("--- first {title} ({} total)", list.len());
         for (k, why, text) in list.iter().take(show) {
             println!("### program {k}: {why}");
@@ -183,7 +210,7 @@ pub fn cmd_stats(seed: u64, n: usize, opts: &[String]) {
     }
     if let Some(dir) = save {
         std::fs::create_dir_all(&dir).ok();
-        for (k, why, text) in rejected.iter().chain(panics.iter()) {
+        for (k, why, text) in rejected.iter().chain(panics.iter()).chain(eval_bad.iter()) {
             std::fs::write(format!("{dir}/s{seed}_p{k}.sc"), format!("// {}\n{text}", why.lines().next().unwrap_or("").replace('|', "/"))).ok();
         }
     }
